@@ -53,9 +53,21 @@ _OPCODE_FILES_WANTED = ('utilcachepool.py', 'utilcachepoolinstance.py', 'utilcac
 
 CONFS = [{}, {'strategy': 'On'}, {'is_color': True}, {'violation_type': 'ValueError'}, {'is_pep484_tower': True}]
 HINTS = [['list', 'U'], ['dict', 'str', 'U'], ['opt', 'U'], ['tuple', 'U'], ['union', 'U', 'str'], ['list', ['list', 'U']],
-         ['set', 'U'], ['U']]
-VALUES = [['u'], ['s', 'a'], ['list', [['u'], ['s', 'a']]], ['list', [['u']]], ['dict', 'k', ['u']], ['n'], ['tuple', [['u']]], ['set', ['u']]]
+         ['set', 'U'], ['U'],
+         # unions below the root and unions of subscripted hints only (their code generation goes through pooled scratch objects)
+         ['list', ['union', ['list', 'U'], ['dict', 'str', 'U']]], ['union', 'U', ['list', 'U']], ['opt', ['list', 'U']],
+         ['dict', 'str', ['union', ['list', 'U'], ['tuple', 'U']]]]
+# files whose functions touch state shared between threads: returns from them mark the preemption points of the 'syncsweep' mode
+SYNC_FILES = ('utilcachepool.py', 'utilcachepoolinstance.py', 'utilcachepoollistfixed.py', 'utilmapunbounded.py', 'utilcachecall.py',
+              'utilcachemeta.py', 'confmain.py', 'doormeta.py', '_clawstate.py', 'clawpkgmain.py', 'clawpkgtrie.py', 'decorcache.py',
+              'utilcachelru.py', 'utilmaplru.py')
+VALUES = [['u'], ['s', 'a'], ['list', [['u'], ['s', 'a']]], ['list', [['u']]], ['dict', 'k', ['u']], ['n'], ['tuple', [['u']]], ['set', ['u']],
+          # values conforming to the nested-union hints
+          ['list', [['list', [['u']]]]], ['dict', 'k', ['list', [['u']]]], ['list', [['dict', 'k', ['u']]]]]
 NAMES = ['a', 'a.b', 'b']
+
+UNION_HINTS = [i for i, h in enumerate(HINTS) if 'union' in repr(h) or 'opt' in repr(h)]
+_hint_index = st.one_of(st.integers(0, len(HINTS) - 1), st.sampled_from(UNION_HINTS))
 
 op_s = st.one_of(
     st.tuples(st.just('conf'), st.integers(0, len(CONFS) - 1)),
@@ -77,6 +89,17 @@ def _case(draw, tier):
     # related operations: with probability 1/2 the second thread repeats the first thread's first operation
     if draw(st.booleans()):
         threads[1][0] = list(threads[0][0])
+    if draw(st.integers(0, 2)) == 0:
+        # sync-point sweep: the first thread is preempted right after its returns from functions of SYNC_FILES - evenly spread over
+        # all of them (stride = ceil(#points / budget), drawn offset) - and the other threads run to completion in between. Both
+        # threads start with an operation that generates code, half of the time over a union hint (pooled scratch objects).
+        gen_op = st.one_of(
+            st.tuples(st.just('decorate_call'), _hint_index, st.integers(0, len(VALUES) - 1), st.integers(0, 1)),
+            st.tuples(st.just('is_bearable'), _hint_index, st.integers(0, len(VALUES) - 1), st.booleans()),
+            st.tuples(st.just('die'), _hint_index, st.integers(0, len(VALUES) - 1), st.booleans()),
+            st.tuples(st.just('typehint'), _hint_index, st.booleans())).map(list)
+        threads = [[draw(gen_op)] + draw(st.lists(op_s, max_size=1)) for _ in range(2)]
+        return {'threads': threads, 'mode': 'syncsweep', 'offset': draw(st.integers(0, 10 ** 6)), 'points': 80 if tier == 'quick' else 400}
     if draw(st.booleans()):
         # one-preemption sweep: the first thread is preempted after k yield points for k = offset, offset+stride, ...
         return {'threads': threads, 'mode': 'sweep', 'stride': draw(st.sampled_from([1, 1, 2, 3, 7])), 'offset': draw(st.integers(0, 6)),
@@ -207,7 +230,7 @@ def _one_run(threads, schedule, trace_prefix):
     U, pfx = _fresh()
     shared = [_hint(h, U) for h in HINTS]
     keep = []
-    s = sched.Scheduler(len(threads), schedule, trace_prefix, OPCODE_FILES, step_timeout=15.0)
+    s = sched.Scheduler(len(threads), schedule, trace_prefix, OPCODE_FILES, step_timeout=15.0, sync_files=SYNC_FILES)
     s.run([(lambda ops=ops: _run_ops(ops, shared, keep, U, pfx)) for ops in threads])
     return s, keep
 
@@ -254,6 +277,14 @@ def _child(case):
         base, _k = _one_run(threads, [10 ** 9], prefix)
         n0 = base.inside[0]
         schedules = [[k] for k in range(case['offset'], n0 + 1, case['stride'])][:case['points']]
+    elif case['mode'] == 'syncsweep':
+        # the first run in a process takes once-only initialisation paths (its yield-point indexes are not those of later
+        # runs): calibrate on the second one
+        _one_run(threads, [10 ** 9], prefix)
+        base, _k = _one_run(threads, [10 ** 9], prefix)
+        pts = sorted(set(base.sync_points[0]))
+        stride = max(1, -(-len(pts) // case['points']))
+        schedules = [[k] for k in pts[case['offset'] % stride::stride]][:case['points']]
     else:
         schedules = case['schedules']
     runs = []
